@@ -2,6 +2,7 @@ package gen
 
 import (
 	"context"
+	"encoding/base64"
 	"encoding/json"
 	"fmt"
 	"reflect"
@@ -424,6 +425,38 @@ func Zoo() *SchemaDesc {
 			return v.Tags
 		}
 		panic("bad Bag source")
+	})
+	structField(sd, "Bag", "sig", ListOf(Scalar("Int")), func(src interface{}) interface{} {
+		var d Digest
+		switch v := src.(type) {
+		case *Bag:
+			d = v.Sig
+		case Bag:
+			d = v.Sig
+		default:
+			panic("bad Bag source")
+		}
+		out := make([]int64, len(d))
+		for i, x := range d {
+			out[i] = int64(x)
+		}
+		return out
+	})
+	structField(sd, "Bag", "chunks", ListOf(Scalar("String")), func(src interface{}) interface{} {
+		var c [][]byte
+		switch v := src.(type) {
+		case *Bag:
+			c = v.Chunks
+		case Bag:
+			c = v.Chunks
+		default:
+			panic("bad Bag source")
+		}
+		out := make([]string, len(c))
+		for i, x := range c {
+			out[i] = base64.StdEncoding.EncodeToString(x)
+		}
+		return out
 	})
 	objField(sd, "Bag", "total", nil, Scalar("Int"), bid, BagTotal)
 	objField(sd, "Bag", "node", nil, Obj("Node"), bid, BagNode)
